@@ -52,6 +52,19 @@ func (e *env) plainRoot(lo, hi int) types.Hash256 {
 	return h
 }
 
+// plainRootOf is the same definition over a list of its own, without memo (the list of sector roots after a
+// write, which is not a sub-range of the environment).
+func plainRootOf(l []types.Hash256) types.Hash256 {
+	switch len(l) {
+	case 0:
+		return types.Hash256{}
+	case 1:
+		return l[0]
+	}
+	sp := 1 << (bits.Len(uint(len(l)-1)) - 1)
+	return blake2b.SumPair(plainRootOf(l[:sp]), plainRootOf(l[sp:]))
+}
+
 type parser struct {
 	s string
 	p int
